@@ -533,5 +533,7 @@ COMPONENTS = {
     "real": ["celpy (all modules, incl. transpiled <string> code)", "lark", "google-re2", "pendulum",
              "threading.Thread (real threads, parked/released one at a time)"],
     "stubbed": ["the choice of which thread runs (seeded scheduler)",
+                "construction of the 2nd, 3rd, ... identical Lark parser of a process (loaded from "
+                "lark's serialisation of the first; the determinism sample re-runs with the real one)",
                 "host callables in sim/hostfuncs.py (module-level defs outside celpy)"],
 }
